@@ -59,6 +59,10 @@ class AnnotatedValue:
 
     def __eq__(self, other):
         try:
+            if isinstance(other, AnnotatedValue) and hasattr(other, "value"):
+                # A constant has a name and a kind too, but it is not a
+                # parameter (and does not equal one from its side either)
+                return False
             return self.name == other.name and self.kind == other.kind
         except AttributeError:
             return False
